@@ -2,9 +2,10 @@
 
 TLC: spec/ExtLoad.tla (resolution of ONE specification: spec form x filesystem / importability situation x module
 content x option shape; Impl = transcription of _load_extension, Ref = SET of admissible outcomes; domains clean / defect)
-and spec/ExtDispatch.tla (containers: Extensions(...), load_extensions(several specs), add, call as a loop; RefCall =
-dispatch contract).  Binding: every CASE is materialised on disk (gverif/props/x01_world.py) and run through the REAL
-code in child processes (x01_worker.py, x01_dispatch.py):
+spec/ExtDispatch.tla (containers: Extensions(...), load_extensions(several specs), add, call as a loop; RefCall =
+dispatch contract) and spec/ExtVisit.tla (Extension.visit / generic_visit / inspect / generic_inspect as a stack machine vs
+the structural walk).  Binding: every CASE is materialised on disk (gverif/props/x01_world.py) and run through the REAL
+code in child processes (x01_worker.py, x01_dispatch.py, x01_visit.py):
    real vs Ref   -> the verdict (VIOLATION / known finding)      real vs Impl -> model drift (note)
 Only public observations decide (exception type + message, what Extensions.call makes the extensions do, sys.modules).
 """
@@ -17,7 +18,7 @@ from concurrent.futures import ThreadPoolExecutor
 
 from gverif import tlc
 from gverif.common import PY, VERIF, child_env, die, scratch
-from gverif.harness import Run
+from gverif.harness import Run, matches
 
 ACTIONS = {"Start", "IsInstance", "IsClass", "IsDict", "SplitColon", "Resolve", "DynImport", "ClassCheck", "Named", "Scan", "Add", "EnsureDataclasses"}
 DEFECTS = {"empty-dict", "cwd-entry-shadows-package", "named-attr-not-extension", "dotted-non-extension-object",
@@ -27,18 +28,21 @@ ALL_OPTS = '{"empty","one","two","unknown"}'
 PALETTE = '{"inst:a","inst:b","inst:x","cls","mod","dc","dcinst","dcsub","bad"}'
 TIERS = {
     "quick": {"load": dict(MAXDEF=2, INITS=ALL_INITS, DICTOPTS=ALL_OPTS, ABS="TRUE", PATHOBJ="TRUE"),
-              "dispatch": [dict(MAXOPS=2, MAXNEW=2, MAXADD=1, LOADSPECS=PALETTE)], "procs": 6},
+              "dispatch": [dict(MAXOPS=2, MAXNEW=2, MAXADD=1, LOADSPECS=PALETTE)],
+              "visit": [dict(MAXNODES=4, KINDS='{"k1","k2"}', MAXALIAS=1)], "procs": 6},
     "thorough": {"load": dict(MAXDEF=3, INITS=ALL_INITS, DICTOPTS=ALL_OPTS, ABS="TRUE", PATHOBJ="TRUE"),
-                 "dispatch": [dict(MAXOPS=3, MAXNEW=2, MAXADD=1, LOADSPECS=PALETTE), dict(MAXOPS=2, MAXNEW=3, MAXADD=2, LOADSPECS=PALETTE)],
+                 "dispatch": [dict(MAXOPS=3, MAXNEW=2, MAXADD=1, LOADSPECS=PALETTE), dict(MAXOPS=2, MAXNEW=3, MAXADD=1, LOADSPECS=PALETTE)],
+                 "visit": [dict(MAXNODES=5, KINDS='{"k1","k3"}', MAXALIAS=1), dict(MAXNODES=4, KINDS='{"k1","k2","k3"}', MAXALIAS=1)],
                  "procs": 10},
 }
 
 
 # ---- running the real code --------------------------------------------------------------------------------------
-def run_workers(load: list, dispatch: list, procs: int, max_def: int) -> tuple[list, list]:
+def run_workers(load: list, dispatch: list, procs: int, max_def: int, visit: list = ()) -> tuple[list, list, list]:
     """Split the cases over `procs` child processes (each builds its own world); results in input order."""
-    n = max(1, min(procs, (len(load) + len(dispatch)) // 200 + 1))
-    chunks = [{"load": load[i::n], "dispatch": dispatch[i::n], "max_def": max_def} for i in range(n)]
+    visit = list(visit)
+    n = max(1, min(procs, (len(load) + len(dispatch) + len(visit) // 10) // 200 + 1))
+    chunks = [{"load": load[i::n], "dispatch": dispatch[i::n], "visit": visit[i::n], "max_def": max_def} for i in range(n)]
     with scratch("x01-") as d:
         def one(i):
             inp, outp = os.path.join(d, f"in{i}.json"), os.path.join(d, f"out{i}.json")
@@ -53,11 +57,26 @@ def run_workers(load: list, dispatch: list, procs: int, max_def: int) -> tuple[l
 
         with ThreadPoolExecutor(max_workers=n) as pool:
             outs = list(pool.map(one, range(n)))
-    rl, rd = [None] * len(load), [None] * len(dispatch)
+    rl, rd, rv = [None] * len(load), [None] * len(dispatch), [None] * len(visit)
     for i, o in enumerate(outs):
         rl[i::n] = o["load"]
         rd[i::n] = o["dispatch"]
-    return rl, rd
+        rv[i::n] = o["visit"]
+    return rl, rd, rv
+
+
+REPORTED: dict = {}
+
+
+def report(run: Run, sig: dict, what: str, stored: dict):
+    """run.violation, but at most 3 unknown violations per (part, clause, defect class / operation, observation):
+    the harness keeps the first 50 only and a single root cause must not crowd the others out."""
+    if not any(e.get("status") == "known" and matches(e, sig) for e in run.findings):
+        key = (sig["part"], sig["clause"], sig.get("defect", sig.get("op")), sig.get("got", sig.get("event")))
+        REPORTED[key] = REPORTED.get(key, 0) + 1
+        if REPORTED[key] > 3:
+            return
+    run.violation(sig, what, stored)
 
 
 # ---- judging one resolution case --------------------------------------------------------------------------------
@@ -118,17 +137,17 @@ def judge_load(run: Run, case: dict, real: dict, stats: dict):
         stats["unclassified"] += 1
         conform = any(x[0] == "enle" for x in refset)
     if not conform:
-        run.violation(dict(base, clause=clause_of(r, refset), got=fmt(r)), f"load_extensions({real['spec']}) in {real['cwd']}/: observed {shown['observed']}; admissible {shown['admissible']}", stored)
+        report(run, dict(base, clause=clause_of(r, refset), got=fmt(r)), f"load_extensions({real['spec']}) in {real['cwd']}/: observed {shown['observed']}; admissible {shown['admissible']}", stored)
     if real["clobbered"]:
-        run.violation(dict(base, clause="sysmodules-preserved", got=fmt(r)), f"load_extensions({real['spec']}) replaced already imported module(s) {real['clobbered']} in sys.modules", stored)
+        report(run, dict(base, clause="sysmodules-preserved", got=fmt(r)), f"load_extensions({real['spec']}) replaced already imported module(s) {real['clobbered']} in sys.modules", stored)
     if not real["env_ok"]:
-        run.violation(dict(base, clause="environment-preserved", got=fmt(r)), f"load_extensions({real['spec']}) changed sys.path or the working directory", stored)
+        report(run, dict(base, clause="environment-preserved", got=fmt(r)), f"load_extensions({real['spec']}) changed sys.path or the working directory", stored)
     if real.get("same_instance") is False:
-        run.violation(dict(base, clause="instance-identity", got=fmt(r)), "an Extension instance given to load_extensions is not the object that receives the events", stored)
+        report(run, dict(base, clause="instance-identity", got=fmt(r)), "an Extension instance given to load_extensions is not the object that receives the events", stored)
     if r[0] == "enle" and r[1] != "unclassified":     # the message names what the user wrote
         want = real["name"] if r[1] == "noattr" else real["path"]
         if want and str(want) not in real["text"]:
-            run.violation(dict(base, clause="message-names-spec", got=fmt(r)), f"message {real['text']!r} does not mention {want!r}", stored)
+            report(run, dict(base, clause="message-names-spec", got=fmt(r)), f"message {real['text']!r} does not mention {want!r}", stored)
     if r != norm_spec(case["impl"]) or bool(real["clobbered"]) != case["clobbered"]:
         stats["drift"] += 1
         stats.setdefault("drift_example", f"{real['spec']}: model {fmt(norm_spec(case['impl']))}, real {fmt(r)}")
@@ -172,8 +191,40 @@ def judge_dispatch(run: Run, case: dict, real: list):
         reg = case["reg"]
         sig = {"part": "dispatch", "clause": clause, "new": hist[0]["op"], "op": op["op"], "event": op["args"][0] if op["op"] == "call" else "-",
                "dup": len(set(reg)) < len(reg), "raiser": "x" in reg}
-        run.violation(sig, f"history {[(o['op'], o['args']) for o in hist[: i + 1]]}: expected {exp}, observed {got}", {"part": "dispatch", "case": case})
+        report(run, sig, f"history {[(o['op'], o['args']) for o in hist[: i + 1]]}: expected {exp}, observed {got}", {"part": "dispatch", "case": case})
         return
+
+
+# ---- judging one walk ---------------------------------------------------------------------------------------------------
+def judge_visit(run: Run, case: dict, real: dict, stats: dict):
+    run.replayed()
+    run.evaluated()
+    if len(case["ref"]) >= 2:
+        run.nontrivial_case(json.dumps({k: case[k] for k in ("parent", "kind", "alias", "handlers", "agent", "entry")}, sort_keys=True))
+    if real.get("stand_in"):
+        stats["stand_in"] += 1       # the helper reads more of ObjectNode than the stand-in offers: detail skipped
+        return
+    ref, log = case["ref"], real["log"]
+    if real["status"] == "ok" and log == ref:
+        if log != case["log"]:
+            stats["drift"] += 1
+        return
+    parent, aliased = case["parent"], set(case["alias"])
+    below_alias = lambda i: i != 0 and (i in aliased or below_alias(parent[i - 1]))  # noqa: E731
+    if real["status"] != "ok":
+        clause = "walk-total"
+    elif len(set(log)) != len(log):
+        clause = "once"
+    elif set(log) - set(ref):
+        clause = "aliases-skipped" if case["agent"] == "inspect" and any(below_alias(i) for i in set(log) - set(ref)) else "no-descent-without-hook"
+    elif set(ref) - set(log):
+        clause = "hook-called"
+    else:
+        clause = "walk-order"
+    sig = {"part": "visit", "clause": clause, "agent": case["agent"], "entry": case["entry"], "op": case["agent"], "event": case["entry"]}
+    what = (f"{case['agent']}/{case['entry']} on tree parent={parent} kinds={case['kind']} aliased={sorted(aliased)} hooks={case['handlers']}: "
+            f"hooks ran on {log} ({real['status']}), the walk is {ref}")
+    report(run, sig, what, {"part": "visit", "case": case})
 
 
 # ---- main -----------------------------------------------------------------------------------------------------------
@@ -181,10 +232,11 @@ def main(tier: str, replay: str | None = None):
     run = Run("X01", tier)
     run.rule = ("ExtLoad.tla: every (spec form, target, separator, named attribute, importability/filesystem situation, cwd clash, absolute/relative, "
                 "number of classes, re-export, __init__ shape, option shape) within bounds, clean and defect domains; ExtDispatch.tla: every history "
-                "New(ctor|load) + MaxOps operations (add, call) within bounds. Non-trivial = resolution case whose spec is a string/path/dict "
-                "(distinct abstract case), or history with a call that reaches >= 2 receivers (distinct history).")
+                "New(ctor|load) + MaxOps operations (add, call) within bounds; ExtVisit.tla: every tree (<= MaxNodes nodes, document order) x kind per node "
+                "x hook mode per kind x aliased nodes x agent (visit|inspect) x entry (node|generic). Non-trivial = resolution case whose spec is a "
+                "string/path/dict (distinct abstract case), history with a call that reaches >= 2 receivers (distinct history), walk that runs >= 2 hooks (distinct case).")
     cfg = TIERS[tier]
-    stats = {"drift": 0, "unclassified": 0, "tap_dc": 0}
+    stats = {"drift": 0, "unclassified": 0, "tap_dc": 0, "stand_in": 0}
     if replay:
         with open(replay) as fh:
             rec = json.load(fh)
@@ -192,41 +244,75 @@ def main(tier: str, replay: str | None = None):
         stored = rec["case"]
         if stored["part"] == "load":
             res = tlc.must(tlc.run("ExtLoad", "ExtLoad_check.cfg", constants=TIERS["quick"]["load"], workers=2))
-            rl, _ = run_workers([stored["case"]["c"]], [], 1, 3)
+            rl, _, _ = run_workers([stored["case"]["c"]], [], 1, 3)
             judge_load(run, stored["case"], rl[0], stats)
+        elif stored["part"] == "visit":
+            res = tlc.must(tlc.run("ExtVisit", "ExtVisit_check.cfg", constants=dict(MAXNODES=3, KINDS='{"k1","k2"}', MAXALIAS=1), workers=2))
+            _, _, rv = run_workers([], [], 1, 2, [stored["case"]])
+            judge_visit(run, stored["case"], rv[0], stats)
         else:
             res = tlc.must(tlc.run("ExtDispatch", "ExtDispatch_check.cfg", constants=TIERS["quick"]["dispatch"][0], workers=2))
-            _, rd = run_workers([], [stored["case"]["hist"]], 1, 2)
+            _, rd, _ = run_workers([], [stored["case"]["hist"]], 1, 2)
             judge_dispatch(run, stored["case"], rd[0])
         run.add_tlc(res)
         run.finish()
-    with ThreadPoolExecutor(max_workers=4) as pool:
-        # ExtLoad_all.cfg = clean + defect domains in one JVM (ExtLoad_check.cfg / ExtLoad_defect.cfg check them apart)
-        jobs = [pool.submit(tlc.run, "ExtLoad", "ExtLoad_all.cfg", constants=cfg["load"], workers=4, timeout=1800)]
-        jobs += [pool.submit(tlc.run, "ExtDispatch", "ExtDispatch_check.cfg", constants=k, workers=4, timeout=3000, heap="6g") for k in cfg["dispatch"]]
-        results = [j.result() for j in jobs]
-    for res in results:
-        tlc.must(res)          # the clean domain verifies every clause; the defect domain verifies DefectExhibited
+    # each stage = one TLC run, then the replay of its cases on the real code; the stages overlap
+    def load_stage():
+        # ExtLoad_all.cfg = clean + defect domains in one JVM (ExtLoad_check.cfg / ExtLoad_defect.cfg check them apart):
+        # the clean cases satisfy every clause, every defect case breaks Conforms or NoClobber (DefectExhibited)
+        res = tlc.must(tlc.run("ExtLoad", "ExtLoad_all.cfg", constants=cfg["load"], workers=4, timeout=1800))
+        cases = sorted(res.cases, key=lambda c: c["defect"] != "none")
+        rl, _, _ = run_workers([c["c"] for c in cases], [], max(2, cfg["procs"] // 2), cfg["load"]["MAXDEF"])
+        return res, cases, rl
+
+    def dispatch_stage(consts):
+        res = tlc.must(tlc.run("ExtDispatch", "ExtDispatch_check.cfg", constants=consts, workers=4, timeout=3000, heap="6g"))
+        _, rd, _ = run_workers([], [c["hist"] for c in res.cases], cfg["procs"], 2)
+        return res, res.cases, rd
+
+    def visit_stage(consts):
+        res = tlc.must(tlc.run("ExtVisit", "ExtVisit_check.cfg", constants=consts, workers=4, timeout=3000, heap="6g"))
+        _, _, rv = run_workers([], [], cfg["procs"], 2, res.cases)
+        return res, res.cases, rv
+
+    with ThreadPoolExecutor(max_workers=6) as pool:
+        jobs = [pool.submit(load_stage)] + [pool.submit(dispatch_stage, k) for k in cfg["dispatch"]]
+        vjobs = [pool.submit(visit_stage, k) for k in cfg["visit"]]
+        stages = [j.result() for j in jobs]
+        vstages = [j.result() for j in vjobs]
+    for res, _, _ in stages + vstages:
         run.add_tlc(res)
-    clean = [c for c in results[0].cases if c["defect"] == "none"]
-    defect = [c for c in results[0].cases if c["defect"] != "none"]
-    disp = [c for r in results[1:] for c in r.cases]
+    load_cases, rl = stages[0][1], stages[0][2]
+    clean = [c for c in load_cases if c["defect"] == "none"]
+    defect = [c for c in load_cases if c["defect"] != "none"]
+    disp = [c for st in stages[1:] for c in st[1]]
+    rd = [r for st in stages[1:] for r in st[2]]
     # vacuity: every action of the transcription fires, every defect class and outcome kind is reached
-    fired = set().union(*[set(c["fired"]) for c in clean + defect])
+    fired = set().union(*[set(c["fired"]) for c in load_cases])
     if fired != ACTIONS:
         die(f"X01: actions never fired: {ACTIONS - fired} / unknown: {fired - ACTIONS}")
-    if {c["defect"] for c in defect} != DEFECTS or {c["defect"] for c in clean} != {"none"}:
+    if {c["defect"] for c in defect} != DEFECTS:
         die(f"X01: defect classes reached {sorted({c['defect'] for c in defect})}, expected {sorted(DEFECTS)}")
     if {c["impl"]["kind"] for c in clean} != {"ok", "enle", "raise"} or len(clean) < 2000 or len(disp) < 10000:
         die(f"X01: case space collapsed: {len(clean)} clean, {len(defect)} defect, {len(disp)} histories")
     run.exhaustive = True
-    load_cases = clean + defect
-    rl, rd = run_workers([c["c"] for c in load_cases], [c["hist"] for c in disp], cfg["procs"], cfg["load"]["MAXDEF"])
     for case, real in zip(load_cases, rl):
         judge_load(run, case, real, stats)
     for case, real in zip(disp, rd):
         judge_dispatch(run, case, real)
-    run.extra["cases"] = {"load_clean": len(clean), "load_defect": len(defect), "histories": len(disp)}
+    walks = 0
+    for _, cases, rv in vstages:
+        walks += len(cases)
+        for case, real in zip(cases, rv):
+            judge_visit(run, case, real, stats)
+    if walks < 10000 or not any(c["agent"] == "inspect" and c["alias"] and len(c["ref"]) >= 2 for _, cs, _ in vstages for c in cs):
+        die(f"X01: walk case space collapsed ({walks} cases)")
+    run.extra["cases"] = {"load_clean": len(clean), "load_defect": len(defect), "histories": len(disp), "walks": walks}
+    if stats["stand_in"]:
+        run.note(f"visit: {stats['stand_in']} inspect case(s) skipped: the helpers read more of ObjectNode than the stand-in nodes offer")
+    hidden = sum(v - 3 for v in REPORTED.values() if v > 3)
+    if hidden:
+        run.note(f"{hidden} further violation(s) of already reported (clause, class, observation) combinations not listed")
     if stats["drift"]:
         run.note(f"load: {stats['drift']} case(s) where the real code differs from the model's transcription (model drift), e.g. {stats.get('drift_example')}")
     if stats["unclassified"]:
